@@ -476,25 +476,49 @@ def r3_lag_lead_table(R) -> None:
 
 def r4_double_definition(R) -> None:
     q = f'{P}.Symbol.combine.<locals>.resolve_strings'
-    g = Fn(R, q)
-    rs = g.raises('ParserError')
-    if R.require(q, len(rs), 'raise ParserError for two different definitions', fi=g.fi, pred=lambda x: isinstance(x, ast.Raise)):
-        atoms = {text(a): truth for (a, truth, _t) in g.guard_atoms(rs[0].id)}
-        ps = [p for p in g.fi.params()][:2]
-        a0, a1 = (ps + ['old', 'new'])[:2] if len(ps) >= 2 else ('old', 'new')
-        ok = g.holds(rs[0].id, f'{a0} is not None') and g.holds(rs[0].id, f'{a1} is not None') and g.holds(rs[0].id, f'{a0} != {a1}')
-        R.check(bool(ok), q, 'double-def-guard', 'two different non-None definitions raise ParserError',
-                f'ParserError guard is {atoms}', where=g.where(rs[0]))
     f = R.repo.func(f'{P}.Symbol.combine')
-    calls = {}
-    for n in iter_own_nodes(f.node):
-        if isinstance(n, ast.Assign) and is_call(n.value, 'resolve_strings'):
-            calls[text(n.targets[0])] = n.value
+    if R.repo.has_func(q) if hasattr(R.repo, 'has_func') else _has(R, q):
+        g = Fn(R, q)
+        rs = g.raises('ParserError')
+        if R.require(q, len(rs), 'raise ParserError for two different definitions', fi=g.fi, pred=lambda x: isinstance(x, ast.Raise)):
+            atoms = {text(a): truth for (a, truth, _t) in g.guard_atoms(rs[0].id)}
+            ps = [p for p in g.fi.params()][:2]
+            a0, a1 = (ps + ['old', 'new'])[:2] if len(ps) >= 2 else ('old', 'new')
+            ok = g.holds(rs[0].id, f'{a0} is not None') and g.holds(rs[0].id, f'{a1} is not None') and g.holds(rs[0].id, f'{a0} != {a1}')
+            R.check(bool(ok), q, 'double-def-guard', 'two different non-None definitions raise ParserError',
+                    f'ParserError guard is {atoms}', where=g.where(rs[0]))
+        calls = {}
+        for n in iter_own_nodes(f.node):
+            if isinstance(n, ast.Assign) and is_call(n.value, 'resolve_strings'):
+                calls[text(n.targets[0])] = n.value
+        for nm in ('equation', 'code'):
+            c = calls.get(nm)
+            ok = c is not None and [text(a) for a in c.args] == [f'self.{nm}', f'other.{nm}']
+            R.check(ok, f.qualname, f'resolve:{nm}', f'{nm} is resolved with the double-definition check',
+                    f'`{nm}` is not resolve_strings(self.{nm}, other.{nm})', where=f.where)
+        return
+    # the resolution is written in (or read into) combine itself: decide it per field, by role - a ParserError raise reached
+    # exactly when both definitions are present and differ
+    c = Fn(R, f'{P}.Symbol.combine')
+    rs = c.raises('ParserError')
+    if not rs:
+        R.inconclusive(c.q, 'double-def', 'no ParserError raise readable in Symbol.combine or its helpers', where=c.fi.where)
+        return
     for nm in ('equation', 'code'):
-        c = calls.get(nm)
-        ok = c is not None and [text(a) for a in c.args] == [f'self.{nm}', f'other.{nm}']
-        R.check(ok, f.qualname, f'resolve:{nm}', f'{nm} is resolved with the double-definition check',
-                f'`{nm}` is not resolve_strings(self.{nm}, other.{nm})', where=f.where)
+        a0, a1 = f'self.{nm}', f'other.{nm}'
+        hit = [r_ for r_ in rs if c.holds(r_.id, f'{a0} is not None') and c.holds(r_.id, f'{a1} is not None') and
+               (c.holds(r_.id, f'{a0} != {a1}') or c.holds(r_.id, f'{a1} != {a0}'))]
+        R.check(bool(hit), c.q, f'resolve:{nm}', f'two different non-None `{nm}` definitions raise ParserError',
+                f'no ParserError raise in combine is guarded by `{a0} is not None and {a1} is not None and {a0} != {a1}`: '
+                f'a second, different {nm} for the same variable is not rejected', where=c.fi.where)
+
+
+def _has(R, q: str) -> bool:
+    try:
+        R.repo.func(q)
+        return True
+    except AnchorMissing:
+        return False
 
 
 FIELDS = {'endogenous': 'ENDOGENOUS', 'exogenous': 'EXOGENOUS', 'parameters': 'PARAMETER', 'errors': 'ERROR'}
